@@ -255,7 +255,7 @@ func (cs *Case) Note(format string, a ...any) {
 func (cs *Case) Sample(v any) {
 	cs.c.mu.Lock()
 	defer cs.c.mu.Unlock()
-	if cs.c.perClass[cs.Class] >= 2 || cs.c.Shard != 0 {
+	if cs.c.perClass[cs.Class] >= 2 {
 		return
 	}
 	cs.c.perClass[cs.Class]++
